@@ -149,3 +149,17 @@ P['C05'] = dict(
     dict(name='H05P', src='C05_pass.cpp', covers=['placer built', 'end'], defines={'VCAP': 10, 'NC': 3, 'POLCHOICES': 2, 'NNETS': 1}, cfg=dict(fp='havoc', time_budget=60), ir_srcs=ALL_IR, native_srcs=ALL_IR, native_flags=['-llemon'],
          thorough=dict(defines={'NNETS': 2, 'XCHOICES': 4, 'OFFCHOICES': 2}, cfg=dict(time_budget=600))),
   ])
+
+P['C04'] = dict(
+  design_ref='DESIGN.md section 3 C04',
+  level_text='(T) cellOrientationInRow / oppositeRowOrientation checked against the documented table for every polarity x orientation (symbolic, loop-free). (L) Circuit::legalize end to end (C01 harness restricted to polarity coverage: all 5 polarities, odd and even row counts, 4 row-orientation patterns): every placed cell has exactly the prescribed orientation, never INVALID, ANY cells keep theirs. (D) inductive step on DetailedPlacement (C02 harness): any accepted swap/insert leaves every cell with the prescribed, non-INVALID orientation.',
+  text=dict(bounds=dict(quick='T: all 50 inputs; L: 1 cell (one or two rows high, 5 polarities, symbolic width and x), 2 rows, 4 orientation patterns, y enumerated; D: 2 segments, 3 cells, cell 0 any polarity', thorough='L: 2 cells, 3 rows with gap, 5x5 polarities; D: 4 cells'),
+            outside='as C01 / C02'),
+  assumptions=STD_ASSUME + [BOOST_ASSUME, 'legalization processing order over-approximated (FP havoc)'],
+  harnesses=[
+    dict(name='H04T', src='C04_table.cpp', covers=['end'], defines={'VCAP': 4}, cfg=dict(fp='exact'), native_srcs=lib_except('parameters.cpp'), native_flags=['-llemon']),
+    dict(name='H04L', src='C01_legalize.cpp', covers=['legalize ended', 'legalize returned', 'end'], defines=dict(C01_BASE, NC=1, YCHOICE=None, POL1CHOICES=1, ROWPATTERNS=4), cfg=dict(fp='havoc'), ir_srcs=ALL_IR, native_srcs=ALL_IR, native_flags=['-llemon'],
+         thorough=dict(defines={'NC': 2, 'WCHOICE': None, 'POL1CHOICES': 5, 'NROWS': 3, 'GAPCHOICES': 2})),
+    dict(name='H04D', src='C02_step.cpp', covers=['constructed', 'swapped', 'inserted', 'end'], defines={'VCAP': 8, 'NCELLS': 3}, cfg=dict(fp='havoc'), ir_srcs=ALL_IR, native_srcs=ALL_IR, native_flags=['-llemon'],
+         thorough=dict(defines={'NCELLS': 4})),
+  ])
